@@ -53,7 +53,15 @@ func (x *res) set(name, v string) {
 }
 
 func (x *res) viol(rule, feature, detail string, witness interface{}) {
-	if len(x.r.Violations) >= 40 {
+	// at most 3 witnesses per signature and case (the parent keeps the smallest), 300 in total
+	n := 0
+	for _, v := range x.r.Violations {
+		if v.Rule == rule && v.Feature == feature {
+			n++
+		}
+	}
+	x.r.Counters["violations_observed"]++
+	if n >= 3 || len(x.r.Violations) >= 300 {
 		return
 	}
 	x.r.Violations = append(x.r.Violations, runner.Violation{Rule: rule, Feature: feature, Detail: detail, Witness: witness})
